@@ -451,7 +451,7 @@ bool BW_MidiSequencer::setChannelEnabled(size_t channel, bool enable)
         m_interface->rt_controllerChange(m_interface->rtUserData, ch, 66, 0);
 
         // Release all notes on the channel now
-        for(int i = 0; i < 127; ++i)
+        for(int i = 0; i < 128; ++i)
         {
             if(m_interface->rt_noteOff)
                 m_interface->rt_noteOff(m_interface->rtUserData, ch, i);
